@@ -165,7 +165,8 @@ def make_o1(k):
             w = World(bindings, outcome_of, value_of)
             broker = dr.Broker()
             broker[CTX[active]] = CTX[active]()
-            case = lambda mv: {"bindings": bindings, "active": active, "outcomes": dict((str(i), o) for i, o in chosen.items())}  # noqa
+            case = lambda mv: {"bindings": bindings, "active": active, "outcomes": dict((str(i), o) for i, o in chosen.items()),  # noqa
+                               "values": dict((str(i), mv.int(v)) for i, v in vals.items())}
             en.note_sample(case)
             with oset.symbolic_order(mode="global"):
                 dr.run(dr.get_dependency_graph(w.S.rp), broker=broker)
@@ -212,7 +213,8 @@ def make_o2(k):
                     continue
                 evals.append(i + 1)
                 case = lambda mv, ev=list(evals): {"bindings": bindings, "active": active, "evaluate_after": ev,  # noqa
-                                                   "outcomes": dict((str(j), o) for j, o in chosen.items())}
+                                                   "outcomes": dict((str(j), o) for j, o in chosen.items()),
+                                                   "values": dict((str(j), mv.int(v)) for j, v in vals.items())}
                 en.note_sample(case)
                 w.invoked[:] = []
                 broker = dr.Broker()
@@ -258,8 +260,10 @@ def obligations(tier):
 def _native(case):
     outcomes = dict((int(i), o) for i, o in case["outcomes"].items())
     bindings = case["bindings"]
+    given = dict((int(i), v) for i, v in (case.get("values") or {}).items())
+    val = lambda i: given.get(i, 1000 + i)  # noqa  (the values of the counterexample; 0 / negative matter to truthiness slips)
     if "evaluate_after" in case:
-        w = World([], lambda i: outcomes.get(i, "value"), lambda i: 1000 + i)
+        w = World([], lambda i: outcomes.get(i, "value"), val)
         bad = []
         full = dict((i, outcomes.get(i, "value")) for i in range(len(bindings)))
         for i, b in enumerate(bindings):
@@ -270,14 +274,14 @@ def _native(case):
                 broker[CTX[case["active"]]] = CTX[case["active"]]()
                 dr.run(dr.get_dependency_graph(w.S.rp), broker=broker)
                 bad += ["evaluation after %d registration(s): %s" % (i + 1, x)
-                        for x in judge(bindings[:i + 1], case["active"], full, w, broker, lambda got, L: got == 1000 + L)]
+                        for x in judge(bindings[:i + 1], case["active"], full, w, broker, lambda got, L: got == val(L))]
         return bad
-    w = World(bindings, lambda i: outcomes.get(i, "value"), lambda i: 1000 + i)
+    w = World(bindings, lambda i: outcomes.get(i, "value"), val)
     broker = dr.Broker()
     broker[CTX[case["active"]]] = CTX[case["active"]]()
     dr.run(dr.get_dependency_graph(w.S.rp), broker=broker)
     full = dict((i, outcomes.get(i, "value")) for i in range(len(bindings)))
-    return judge(bindings, case["active"], full, w, broker, lambda got, L: got == 1000 + L)
+    return judge(bindings, case["active"], full, w, broker, lambda got, L: got == val(L))
 
 
 def validate(tier):
